@@ -45,7 +45,9 @@ theorem handoff_channels :
       ("handleSequence:chColor", "nonblocking"), ("handleSequence:chFg", "nonblocking"), ("handleSequence:chBg", "nonblocking"),
       ("handleSequence:chClipboard", "bounded")] ∧
     (∀ s ∈ Gen.Conc.handoffSends, s.2 = "nonblocking" ∨ s.2 = "bounded") ∧
-    Gen.Conc.handoffRecvs = [("QueryColor", "chColor", "bare"), ("QueryForeground", "chFg", "bare"), ("QueryBackground", "chBg", "bare"),
+    Gen.Conc.handoffRecvs = [("QueryColor", "chColor", "select-default"), ("QueryColor", "chColor", "bare"),
+      ("QueryForeground", "chFg", "select-default"), ("QueryForeground", "chFg", "bare"),
+      ("QueryBackground", "chBg", "select-default"), ("QueryBackground", "chBg", "bare"),
       ("openTty", "chSigWinSz", "select"), ("openTty", "chSigKill", "select"), ("CursorPosition", "chCursorPos", "select-default"),
       ("CursorPosition", "chCursorPos", "select-timeout"), ("ClipboardPop", "chClipboard", "select-ctx"),
       ("reportWinsize", "chSizeDone", "select-timeout")] := by decide +kernel
